@@ -74,6 +74,17 @@ theorem index_find_iff_present (k : Nat) (kvs : List (Nat × Nat))
     · intro h row hm; exact h row ((hiff row).mpr hm)
     · intro h row hf; exact h row ((hiff row).mp hf)
 
+/-- **Known finding C17-1 (witness).**  The hypothesis `id ≠ 0` above cannot be dropped: 0 is the
+unused-slot marker, and `find` tests "signature matches" before "slot unused", so the key 0 —
+which can never be stored — is reported as found, at the (invalid) row 0 of the first unused slot
+of its probe sequence.  Here: a one-slot table without any unit.  (`DwarfPackage::find_cu` then
+fails with `InvalidIndexRow(0)` instead of returning `None`.) -/
+theorem find_zero_id_witness :
+    ∃ ix, Index.parse .little
+        [2, 0, 0, 0, 0, 0, 0, 0, 0, 0, 0, 0, 1, 0, 0, 0, 0, 0, 0, 0, 0, 0, 0, 0, 0, 0, 0, 0] = .ok ix ∧
+      find .little ix 0 = some 0 ∧ Index.sections .little ix 0 = .err .rInvalidIndexRow := by
+  refine ⟨_, rfl, by decide, by decide⟩
+
 /-- **`find` terminates within `slot_count` probes for ANY index** — whatever the bytes of the
 hash arrays are (full tables without an empty slot, tables not built by insertion, zero slots,
 slot counts that are not powers of two).  `findN` is `find` together with the number of slots it
